@@ -3,6 +3,7 @@
     import of IEEE binary floats.  Definitions only (proofs: TextIoProof.v, BaseConvProof.v).
     Text = list of byte values (Z).  A float is (s, e) = s * B^e. *)
 From Dashu Require Import Base.Prelude Float.RoundSpec Float.Contract Float.Model Int.IoSpec.
+From DashuGen Require Import RoundTables.
 Open Scope Z_scope.
 
 (** exponents are isize; the correspondence run is made on a 64-bit target *)
@@ -157,6 +158,41 @@ Definition pad_spec (f : fmtflags) (negative : bool) (body : list Z) : list Z :=
       rep l (f_fill f) ++ sg ++ body ++ rep r (f_fill f)
   end.
 
+(** Padding is outside the property: a printed text is acceptable when it is the specified sign and
+    body, possibly preceded / followed by fill bytes (only when a width was requested) and with
+    zeros between sign and body (only with the zero flag and a width). *)
+Fixpoint drop_while_eq (c : Z) (l : list Z) : list Z :=
+  match l with x :: t => if x =? c then drop_while_eq c t else l | [] => [] end.
+Fixpoint list_eqb (a b : list Z) : bool :=
+  match a, b with
+  | [], [] => true
+  | x :: a', y :: b' => (x =? y) && list_eqb a' b'
+  | _, _ => false
+  end.
+Fixpoint strip_prefix (p l : list Z) : option (list Z) :=
+  match p, l with
+  | [], _ => Some l
+  | x :: p', y :: l' => if x =? y then strip_prefix p' l' else None
+  | _, [] => None
+  end.
+(** [l] = zeros ++ body *)
+Fixpoint zeros_then (body l : list Z) : bool :=
+  list_eqb l body || match l with 48 :: t => zeros_then body t | _ => false end.
+
+Definition layout_ok (f : fmtflags) (negative : bool) (body got : list Z) : bool :=
+  let sg := if negative then [45] else if f_plus f then [43] else [] in
+  match f_width f with
+  | None => list_eqb got (sg ++ body)
+  | Some _ =>
+    let fillc := match f_fill f with c :: _ => c | [] => 32 end in
+    let g1 := drop_while_eq fillc got in
+    let g2 := rev (drop_while_eq fillc (rev g1)) in
+    match strip_prefix sg g2 with
+    | Some g3 => if f_zero f then zeros_then body g3 else list_eqb g3 body
+    | None => false
+    end
+  end.
+
 Definition display_spec (B : Z) (m : mode) (f : fmtflags) (s e : Z) (prec : option Z) : list Z :=
   pad_spec f (s <? 0) (display_body_spec B m s e prec).
 
@@ -166,6 +202,11 @@ Definition sci_spec (B : Z) (m : mode) (upper : bool) (f : fmtflags) (s e : Z) (
 (* ------------------------------------------------------------------------------------------ *)
 (** * precision and base changes *)
 
+(** dashu's [Rounding] names the adjustment that was applied to the truncated quotient:
+    NoOp = truncated, AddOne / SubOne = one unit added / subtracted *)
+Definition adj_flag (N d r : Z) : rounding :=
+  match r ?= Z.quot N d with Eq => NoOp | Gt => AddOne | Lt => SubOne end.
+
 (** with_precision: p = 0 is "unlimited" *)
 Definition with_precision_spec (B p : Z) (m : mode) (s e : Z) : Z * Z * flag :=
   if (p =? 0) || (dlen B s <=? p) then (s, e, FExact)
@@ -173,7 +214,7 @@ Definition with_precision_spec (B p : Z) (m : mode) (s e : Z) : Z * Z * flag :=
     let k := dlen B s - p in
     let r := spec_round m s (B ^ k) in
     let '(s', e') := normalize B r (e + k) in
-    (s', e', FInexact (spec_flag s (B ^ k) r)).
+    (s', e', FInexact (adj_flag s (B ^ k) r)).
 
 (** the value s * B^e as a fraction *)
 Definition float_rat (B s e : Z) : xval :=
